@@ -96,14 +96,20 @@ def _parse_range(size: int, key: Union[int, slice]) -> Tuple[bool, int, int, int
         else:
             if start < 0:
                 start += size
-            start = min(max(0, start), size)
+            if step > 0:
+                start = min(max(0, start), size)
+            else:
+                start = min(max(-1, start), size - 1)
 
         if stop is None:
             stop = size if step > 0 else -1
         else:
             if stop < 0:
                 stop += size
-            stop = min(max(0, stop), size)
+            if step > 0:
+                stop = min(max(0, stop), size)
+            else:
+                stop = min(max(-1, stop), size - 1)
 
         return False, start, stop, step
 
